@@ -29,6 +29,15 @@ CHECKS = {
          "activation types and response codes. Not a proof: conformance is exhaustive over the enumerated families only.",
          "in-memory TCP stream (real asyncio.StreamReader, recording writer); ISO 13400-2 timing constants 2000/500 ms. " + TRUST,
          "DESIGN.md section 4, C06"),
+ "C07": ("TLA+ design model of HSFZConnection (reader task, read queue, ack wait, control words; maximal-progress timers) "
+         "model-checked by TLC; timed contract monitor (HsfzContract) used by TLC to validate traces of the real "
+         "HSFZTransport on a hand-fed StreamReader under virtual time; TLC-simulated schedules replayed into the code",
+         "Exhaustive model checking of all gateway frame sequences up to 4 (quick) / 5-6 (thorough) frames interleaved with "
+         "three client programs; TLC trace validation of every real execution for all gateway choice vectors up to the "
+         "frame budget at every phase-relative injection point for ack timeouts 200/1000/3000 ms, all seven error control "
+         "words at every phase, every single split point of canonical exchanges. Exhaustive over the enumerated families only.",
+         "in-memory TCP stream (real asyncio.StreamReader, recording writer). " + TRUST,
+         "DESIGN.md section 4, C07"),
 }
 PENDING = {}
 
